@@ -29,7 +29,7 @@ func init() {
 		Level:     "exploration",
 		Technique: "reference-model oracle at every commit boundary of a fake Postgres + simulated node; generated declarations, chains, schedules and transient faults",
 		Rule: "each case draws an integration (log/tx/trace mode, event ABI from the C09 generator, block fields), batch 1..12 × concurrency 1..6 (incl. batch<concurrency and non-divisible), a start kind {head,1,mid,head,head+1}, a growth-only chain, " +
-			"a schedule interleaving head growth with steps and a budget of transient RPC/SQL faults; signature = (mode, plan, batch-vs-concurrency class, start kind, growth-during-run, fault kinds); trivial = no row expected at quiescence or no step advanced. Fifth seeding round: one faulted case in four runs against a load balancer whose backends lag 1–3 blocks behind the announced head (every other request answered from the shorter chain).",
+			"a schedule interleaving head growth with steps and a budget of transient RPC/SQL faults; signature = (mode, plan, batch-vs-concurrency class, start kind, growth-during-run, fault kinds); trivial = no row expected at quiescence or no step advanced. Fifth seeding round: one faulted case in four runs against a load balancer whose backends lag 1–3 blocks behind the announced head (every other request answered from the shorter chain). Sixth round: one log case in sixteen places, after the other logs of one block, a log with the declared event's topics whose data is cut short; the run may stall in front of that block or step over the log, every successful step still has to write all rows of the blocks it covers.",
 		Assumptions: []string{
 			"fakepg implements PostgreSQL semantics for the SQL subset of DESIGN.md §3.1; simnode answers like geth/erigon",
 			"task_updates.nblocks/src_num/latency are statistics, not part of the statement, and are not compared",
